@@ -53,6 +53,14 @@ enum BackendKind {
 
 #[inline]
 fn get_selected_backend() -> BackendKind {
+    #[cfg(curve25519_dalek_verif)]
+    match crate::verif::forced_backend() {
+        1 => return BackendKind::Serial,
+        #[cfg(curve25519_dalek_backend = "simd")]
+        2 => return BackendKind::Avx2,
+        _ => {}
+    }
+
     #[cfg(all(curve25519_dalek_backend = "unstable_avx512", nightly))]
     {
         cpufeatures::new!(cpuid_avx512, "avx512ifma", "avx512vl");
@@ -72,6 +80,19 @@ fn get_selected_backend() -> BackendKind {
     }
 
     BackendKind::Serial
+}
+
+/// Verification hook: which implementation the dispatcher selects right now
+/// (0 = serial, 2 = AVX2, 3 = AVX-512 IFMA).
+#[cfg(curve25519_dalek_verif)]
+pub(crate) fn verif_selected_backend() -> u8 {
+    match get_selected_backend() {
+        #[cfg(curve25519_dalek_backend = "simd")]
+        BackendKind::Avx2 => 2,
+        #[cfg(all(curve25519_dalek_backend = "unstable_avx512", nightly))]
+        BackendKind::Avx512 => 3,
+        BackendKind::Serial => 0,
+    }
 }
 
 #[allow(missing_docs)]
